@@ -48,6 +48,7 @@ class Ctx:
         self.assumptions = []
         self.level = "model_checking"
         self._bins = {}
+        self.replay_prefix = ""
         os.makedirs(os.path.join(OUT, "replays", prop), exist_ok=True)
 
     # ---- scratch -------------------------------------------------------
@@ -113,7 +114,7 @@ class Ctx:
 
     # ---- verdicts ------------------------------------------------------
     def save_replay(self, name, obj):
-        path = os.path.join(OUT, "replays", self.prop, name)
+        path = os.path.join(OUT, "replays", self.prop, self.replay_prefix + name)
         with open(path, "w") as f:
             if isinstance(obj, (dict, list)):
                 json.dump(obj, f, indent=1)
